@@ -76,6 +76,56 @@ def c12_redo_refused_own_tombstone_neighbour(info):
     return False
 
 
+def _nondet_candidates(info):
+    """C12_Deterministic: the event at which two executions of the same schedule differed, as recorded by either execution
+    (the slim `nondet` event carries `at` and `alt`); element ids of the two executions are unrelated, so a candidate may
+    only be examined through what it carries itself (stk, alias, upd, obs)"""
+    e = info.get("event") or {}
+    trace = info.get("trace") or []
+    out = []
+    if e.get("k") == "nondet" and e.get("at"):
+        if 1 <= e["at"] <= len(trace):
+            out.append(trace[e["at"] - 1])
+        if isinstance(e.get("alt"), dict):
+            out.append(e["alt"])
+    return out
+
+
+def _wrong_copy_removed(e):
+    """an undo / redo call removed the re-created copy of an element that NO consumed stack item records as inserted, while
+    the copy of an element that IS recorded stays alive in the same chain (Store::follow_redone continued with the `redone`
+    pointer of a squashed block without the offset of the unit it was following)"""
+    if not _is_pop(e) or "stk" not in e or "obs" not in e or not e.get("alias"):
+        return False
+    undo = e["call"]["a"] == "undo"
+    stack = e["stk"]["u" if undo else "r"]
+    left = e["us"] if undo else e["rs"]
+    if left >= len(stack):
+        return False
+    cls = {}
+    for g in e["alias"]:
+        g = [tuple(x) for x in g]
+        for x in g:
+            cls[x] = g
+    ins = set()
+    for item in stack[left:]:
+        ins |= _ids(item["ins"])
+    dead = {tuple(x) for x in e["obs"]["dead"]} | {tuple(x) for x in e["obs"].get("gone", [])}
+    lst = {c: [tuple(x) for x in v] for c, v in e["obs"]["lst"].items()}
+    made_now = {tuple(u["id"]) for u in e["upd"]["ins"]}
+    for d in (tuple(x) for x in e["upd"]["del"]):
+        g = cls.get(d)
+        if d in ins or d in made_now or not g or g[0] == d or any(x in ins for x in g):
+            continue                                  # d is a copy of an element the consumed steps did not insert
+        for chain in lst.values():
+            if d not in chain:
+                continue
+            # an element recorded as inserted (or a copy of one) is still alive in that chain
+            if any(z not in dead and (z in ins or any(x in ins for x in cls.get(z, []))) for z in chain):
+                return True
+    return False
+
+
 def c12_undo_misses_split_copy(info):
     """The inverse law fails at an undo / redo call that had to remove what a captured step inserted: two consecutive units
     x, x+1 of ONE inserted run (text characters / array values: x+1 was inserted with origin x by the same transaction), both
@@ -83,12 +133,21 @@ def c12_undo_misses_split_copy(info):
     `redone` pointer names the copy of its FIRST unit), and the copy was split afterwards (something was inserted between the
     two copies, or one of them was deleted and re-created again): the call removed the copy of x and left the copy of x+1
     alive.  UndoManager::try_process follows `redone` once per captured item and deletes only the block that starts there
-    (Store::follow_redone ignores the offset inside an item)."""
+    (Store::follow_redone ignores the offset inside an item).
+    Second form (same routine): the copy had been squashed behind other copies, was deleted and re-created again as ONE block;
+    following the chain, follow_redone continues with the block's `redone` (= copy of the block's FIRST unit) and the call
+    removes the copy of a unit the step never inserted (`_wrong_copy_removed`).  Which copies get squashed depends on the
+    hash order in which try_process re-creates them: this form also shows as C12_Deterministic."""
     e = info.get("event")
+    mine = {p[0] for p in info["preds"] if p[0].startswith("C12_")}
+    if mine == {"C12_Deterministic"}:
+        return any(_wrong_copy_removed(c) for c in _nondet_candidates(info))
     if not _is_pop(e) or "stk" not in e or "obs" not in e or not e.get("alias"):
         return False
     if not all(p[0] in INVERSE for p in info["preds"] if p[0].startswith("C12_")):
         return False
+    if _wrong_copy_removed(e):
+        return True
     undo = e["call"]["a"] == "undo"
     stack = e["stk"]["u" if undo else "r"]
     left = e["us"] if undo else e["rs"]
@@ -185,6 +244,23 @@ def c12_redo_splits_collected_block(info):
     return False
 
 
+def c12_redo_right_origin_is_origin(info):
+    """An undo / redo call re-created a nested container together with its children and one re-created child carries a right
+    origin EQUAL to its origin (ill-formed position: C04_Between, reported for the call as C12_Replicated / C12_Converge).
+    ItemPtr::redo finds the right neighbour in the new parent by following the `redone` pointers of the old right siblings; an
+    original sits to the right of its own copy in the old chain, so the newest copy of such a sibling can be the item already
+    chosen as LEFT neighbour."""
+    e = info.get("event")
+    if not _is_pop(e):
+        return False
+    preds = {p[0] for p in info["preds"] if p[0].startswith("C12_")}
+    if not preds <= {"C12_Replicated", "C12_Converge"}:
+        return False
+    if not any(u["kind"] == "type" for u in e["upd"]["ins"]):
+        return False
+    return any(tuple(u["o"]) != (0, 0) and tuple(u["o"]) == tuple(u["ro"]) for u in e["upd"]["ins"])
+
+
 def _recreated_families(trace):
     """(container element, children) re-created together by one undo / redo call"""
     fams = []
@@ -254,13 +330,17 @@ PROPOSED_KNOWN = [
              "of {k1:2}. Same rule as Yjs (redoItem); a repair would have to tell own tombstones from foreign ones. "
              "Attributes of XML elements are keyed chains like map entries and show the same behaviour "
              "(<e id=2>; remove id; set id=5 + remove id; undo -> element removed instead of <e id=2>)."},
-    {"id": "KF-C12-2", "property": "C12", "predicate": "C12_OneStep",
+    {"id": "KF-C12-2", "property": "C12",
      "pattern": "c12_undo_misses_split_copy",
+     "predicates": ["C12_OneStep", "C12_InverseUndo", "C12_InverseRedo", "C12_ReturnValue", "C12_Deterministic"],
      "what": "undo of an insertion leaves part of it behind: the inserted run (>= 2 text characters / array values in one item) "
              "was deleted and re-created by an earlier undo/redo, and the re-created copy was split afterwards (insertion "
              "between the copies, or partial deletion); UndoManager::try_process follows the item's `redone` pointer once and "
              "deletes only the first fragment of the copy (Store::follow_redone ignores offsets inside an item) -- e.g. "
              "S1 insert 'ab'; S2 delete 'ab'; undo; S3 insert 'c' between a and b; undo; undo -> 'b' instead of ''. "
+             "Second form: the copy was squashed behind other copies and re-created again as one block; follow_redone then "
+             "continues without the unit's offset and the call removes the copy of a unit the step never inserted (depends on "
+             "the hash order of re-creation: also seen as C12_Deterministic). "
              "Candidate repair: notes/undoxml-split-copy.patch.diff (walk the copy fragment by fragment)."},
     {"id": "KF-C12-3", "property": "C12", "predicate": "C12_OneStep",
      "pattern": "c12_redo_splits_collected_block",
@@ -270,4 +350,11 @@ PROPOSED_KNOWN = [
              "the block it is re-creating (or a block still waiting in to_redo); the split-off part is never re-created -- e.g. "
              "S1 m.k1 = [r], insert q at 0; S2 delete r; undo; undo; redo -> {k1:[q]} instead of {k1:[q,r]} (same with an XML "
              "text node and its characters). Candidate repair: notes/undoxml-redo-splits-itself.patch.diff."},
+    {"id": "KF-C12-4", "property": "C12", "predicate": "C12_Replicated",
+     "pattern": "c12_redo_right_origin_is_origin",
+     "what": "undo/redo that re-creates a nested container with its children gives a re-created child a right origin equal to "
+             "its origin (ill-formed YATA position, C04_Between): ItemPtr::redo takes the newest copy of an old right sibling as "
+             "right neighbour although that copy is the item already chosen as left neighbour (an original sits right of its own "
+             "copy) -- e.g. <e>[T]; delete T; undo; insert <f> after T; delete <e>; undo. Content by value is right, all "
+             "replicas seen so far converge. Candidate repair: notes/undoxml-redo-right-origin.patch.diff."},
 ]
